@@ -1,8 +1,50 @@
-/- Driver handler of C16: protocol line (already split into tokens, without the leading "c16") -> answer. -/
+/- Driver handler of C16: protocol line (tokens, first = "c16") -> answer.
+     c16 match   <v> <match_type> a:r:c …
+     c16 vlookup <v> <col> <range_lookup> a:r:c …
+     c16 hlookup <v> <row> <range_lookup> a:r:c …
+     c16 lookup  <v> a:r:c … [a:r:c …]
+     c16 index   <row> <col | -> a:r:c …
+     c16 top <op> …   the same call evaluated as a whole cell formula (a blank result is shown as 0)
+-/
 import Pycel.Model.Proto
+import Pycel.Model.Lookup
 namespace Pycel.Drv.C16
+open Pycel Pycel.Lookup
 
+def encOut : Out → String
+  | .cell v => v.enc
+  | .arr a => encArr a
+
+/-- `top` marks a call made as a whole cell formula: excelformula.py:951 turns a blank result into 0 -/
 def handle : List String → String
+  | "c16" :: "top" :: rest =>
+    let s := handle ("c16" :: rest)
+    if s = "z" then "n:0/1" else s
+  | "c16" :: "match" :: rest =>
+    match decArgs? rest with
+    | some [.scalar v, .scalar mt, .arr a] => (xmatch v a mt).enc
+    | _ => "!bad-arg"
+  | "c16" :: "vlookup" :: rest =>
+    match decArgs? rest with
+    | some [.scalar v, .scalar k, .scalar rl, .arr a] => (vlookup v a k rl).enc
+    | _ => "!bad-arg"
+  | "c16" :: "hlookup" :: rest =>
+    match decArgs? rest with
+    | some [.scalar v, .scalar k, .scalar rl, .arr a] => (hlookup v a k rl).enc
+    | _ => "!bad-arg"
+  | "c16" :: "lookup" :: rest =>
+    match decArgs? rest with
+    | some [.scalar v, .arr a] => (lookup v a none).enc
+    | some [.scalar v, .arr a, .arr rr] => (lookup v a (some rr)).enc
+    | _ => "!bad-arg"
+  | "c16" :: "index" :: row :: "-" :: rest =>
+    match Val.dec? row, decArgs? rest with
+    | some r, some [.arr a] => encOut (index a r none)
+    | _, _ => "!bad-arg"
+  | "c16" :: "index" :: rest =>
+    match decArgs? rest with
+    | some [.scalar r, .scalar c, .arr a] => encOut (index a r (some c))
+    | _ => "!bad-arg"
   | _ => "!bad-op"
 
 end Pycel.Drv.C16
